@@ -18,7 +18,7 @@ CLAIMED = {
             "which returns the same document, and canonicalising it again gives the same bytes, for flat documents (C01_flat_fixed_point), arbitrarily nested blocks (C01_tree_fixed_point), META + trees "
             "(C01_meta_fixed_point), sections with ids 1 / 2b / NAME nested to any depth (C01_sect_fixed_point), expressions with every operator (C01_expr_fixed_point), list values (C01_list_fixed_point), "
             "trees with leading / trailing / end-of-document comments (C01_ctree_fixed_point), and two unified classes: rich values inside blocks and sections "
-            "(C01_udoc_fixed_point) and META + sections + comments on every node (C01_document_fixed_point); emit ignores positions. PARTIAL: mixtures outside the two unified classes, floats inside documents, inline "
+            "(C01_udoc_fixed_point) META + sections + comments on every node (C01_document_fixed_point), joined in the master class with float values and trailing comments behind lists (C01_mdoc_fixed_point); emit ignores positions. PARTIAL: documents outside the master class (orphan comments, zones and spelling freedoms are proved in classes of their own; nested lists), floats inside documents, inline "
             "maps, holographic values and zones in lists/META (findings C01N5, C01N6) are backed by the tie only: regenerated lexer/emitter/parser tables pinned by decide facts; exact correspondence "
             "(canonical text, strict verdict) of the full transcription on generated documents, the shipped corpus, exhaustive token sequences and mutations; oracle on the real code incl. tools."),
     "C02": ("text", "Lean 4 proof (content preservation at document level per construct; comments attached and kept; reader value typing; list values) + content-model oracle + AST correspondence",
@@ -32,13 +32,14 @@ CLAIMED = {
             "omitted or mis-laid ===END=== - canonicalises to the canonical bytes through both canonicalisers (C03_flat_converge, C03_flat_spellings_agree); every ASCII-alias spelling of every expression "
             "converges to the Unicode form (C03_expr_alias_converge, C03_expr_spellings_agree); one-line and one-item-per-line layouts of list values converge (C03_list_layouts_converge, "
             "C03_list_layouts_agree); # for the section sign (C03_sect_hash_canonicalises); emit ignores every source position; alias table sound and complete; 2 spaces per level; final newline. "
-            "PARTIAL: spellings inside nested documents are decided by the search: independent lenient spellings per document incl. the far corner (every site non-canonical) converge byte-for-byte; "
+            "every indentation spelling of a block tree (per-block width >= 1, ragged deeper siblings, blank lines, per-line freedoms, every frame) converges (C03_tree_indent_converge, "
+            "C03_tree_spelled_converge, C03_tree_framed_converge). PARTIAL: indentation spellings combined with comments / sections / lists are decided by the search: independent lenient spellings per document incl. the far corner (every site non-canonical) converge byte-for-byte; "
             "independent strict-profile recogniser; octave_write(lenient) bytes."),
     "C04": ("text", "Lean 4 proof (escape/unescape inverse; strings, booleans, null, integers survive emit -> tokenize -> parse inside documents; int/float re-lex) + exhaustive scalar round trip",
             "Theorems hold for every string of any characters: unescape(escape s) = s; the quoted lexeme re-lexes to ONE STRING token carrying s; a bare word to one IDENTIFIER token; every int within "
             "CPython's 4300-digit limit and every float repr re-lex to ONE NUMBER token with the same value, beyond the limit a positioned LexerError (C04_int_relex, C04_int_over_limit_refused, "
-            "C04_float_relex under the Env law repr(float(r)) = r); at document level the value read back equals the value written (C02_flat_content_preserved and the classes of C01). PARTIAL: floats "
-            "inside the document classes, inline-map positions and NFC (finding F16) are decided by the exhaustive correspondence: strings <=3 over the class alphabet x 9 positions, random strings, "
+            "C04_float_relex under the Env law repr(float(r)) = r); at document level the value read back equals the value written (C02_flat_content_preserved and the classes of C01, floats as line values in C02_mdoc_content_preserved). PARTIAL: floats "
+            "as list items / META values, inline-map positions and NFC (finding F16) are decided by the exhaustive correspondence: strings <=3 over the class alphabet x 9 positions, random strings, "
             "ints to 4300 digits, floats; octave_write changes path."),
     "C05": ("text", "Lean 4 proof (a zone is tokenised, read and re-emitted verbatim for every content, marker and tag; exact guard of finding C05N1) + zone pipelines search",
             "Theorems (every content: tabs, NFD, backslashes, quotes, operators, ===END===, shorter backtick runs): normalisation returns the text unchanged with exactly one span, tabs are accepted "
